@@ -1227,12 +1227,19 @@ class _Impl:
 
   def build_geno(self, g):
     pg = self.pg
+    # names and hints: derived from the shape, so about half of the decision points carry them
+    extra = {}
+    if len(json.dumps(g)) % 2:
+      self._names = getattr(self, '_names', 0) + 1
+      extra['name'] = 'n%d' % self._names        # decision-point names must be unique
+    if len(json.dumps(g)) % 3 == 0:
+      extra['hints'] = {'k': len(g), 't': (1, 'x')}
     if g[0] == 'floatv':
-      return pg.floatv(g[1], g[2])
+      return pg.floatv(g[1], g[2], **extra)
     if g[0] == 'oneof':
-      return pg.oneof([self.build_geno(c) if isinstance(c, list) else c for c in g[1]])
+      return pg.oneof([self.build_geno(c) if isinstance(c, list) else c for c in g[1]], **extra)
     if g[0] == 'manyof':
-      return pg.manyof(g[1], g[2], distinct=g[3], sorted=g[4])
+      return pg.manyof(g[1], g[2], distinct=g[3], sorted=g[4], **extra)
     return pg.Dict({'k%d' % i: self.build_geno(c) for i, c in enumerate(g[1])})
 
   def spec(self, case):
@@ -1269,6 +1276,7 @@ class _Impl:
       cls = self.classes[case['expr']]
       rt('schema', cls.__schema__, lambda a, b: a == b)
     elif what == 'geno':
+      self._names = 0
       hyper = pg.Dict(x=self.build_geno(case['expr']))
       spec = pg.dna_spec(hyper)
       rt('dna spec', spec, pg.eq)
@@ -1321,6 +1329,15 @@ class _Impl:
           problems.append('%s-value: value differs after the round trip: %s' % (tag, d[0]))
         elif self.probe(v) != self.probe(res['ok']):
           problems.append('%s-spec-lost: schema-backed behaviour differs (value_spec not serialised)' % tag)
+    elif what == 'misc':
+      P, Q = self.classes['P'], self.classes['Q']
+      diff = pg.diff(Q(a=P(1, 'a'), n=3), Q(a=P(2, 'a'), n=None))
+      rt('diff', diff, pg.eq)
+      rt('opaque set (pickle fallback)', pg.Dict(s={1, 2, 'x'}), lambda a, b: a.s == b.s)
+      ref = self.attempt(lambda: pg.to_json(pg.Dict(a=pg.Ref(P(1)))))
+      if ref != {'err': 'TypeError'}:
+        problems.append('pg.Ref is documented as not serialisable (TypeError), got %s' % (ref,))
+      rt('keypath', pg.Dict(p=pg.KeyPath.parse('a.b[0]')), lambda a, b: a.p == b.p)
     elif what == 'func':
       for name, v in (('class', self.classes[case['expr']]), ('function', self.mod.module_function),
                       ('builtin', len), ('type', int), ('method', self.classes['P'].make)):
@@ -1367,7 +1384,12 @@ class C05(Prop):
       '(_internal_path, _locate, mkdirs, open w/a, read), LineSequence; tied by correspondence',
       'stand-alone typed containers: modelled for const-key Dict / List with the field kinds above '
       '(sym_jsonify schema branch, schema-backed writes), tied by 4 fixed correspondence cases',
+      'pg.DNA: compact JSON + root metadata + cloneable keys modelled on top of the C12 parse model (floats '
+      'as exact ratios; the ratio <-> token map is the trusted float text layer); to_json options '
+      'hide_frozen / hide_default_values and auto_dict modelled; jsonl = LineSequence + to_json_str',
       'outside the model (oracle only): typed containers with rich specs, Tuple/Enum/Float/Union fields, '
+      'hyper primitives / DNASpec / Diff / functor objects (registered pg.Object classes with rich field '
+      'specs), pg.KeyPath, the pickle fallback (sets), auto_import, non-compact DNA form, '
       'value specs (argument-record level only: T-SIG table + C05_sig_roundtrip), schemas, geno specs, DNA, '
       'functions / classes by name, MemorySequence (.mem), opaque-object fallback (pickle in base64)',
   ]
@@ -1421,7 +1443,7 @@ class C05(Prop):
     if not quick:
       yield from self.exhaustive_paths()
     for i in range(n_spec):
-      k = rng.weighted([(6, 'spec'), (1, 'schema'), (3, 'geno'), (1, 'func'), (1, 'typed')])
+      k = rng.weighted([(6, 'spec'), (1, 'schema'), (3, 'geno'), (1, 'func'), (1, 'typed'), (1, 'misc')])
       if k == 'spec':
         yield {'kind': 'spec', 'what': 'spec', 'expr': gen_spec(rng, rng.randint(0, 3))}
       elif k == 'geno':
